@@ -26,6 +26,9 @@ package frame
 //@   requires b != nil && 0 <= dataOffset && dataOffset <= 65536
 //@   requires pooledSlice != nil ==> base(data) == base(pooledSlice) && dataOffset >= 0 && off(data) == off(pooledSlice) + dataOffset && len(pooledSlice) == cap(pooledSlice) && off(pooledSlice) == 0 && dataOffset + cap(data) <= len(pooledSlice)
 //@   ensures wf [C02,C13]: result1 == nil ==> result0 != nil && result0.data != nil && len(result0.data) == len(data) && base(result0.data) == base(data) && off(result0.data) == off(data)
+// completeness: every frame laid out as the builder lays it out (48 header bytes, switch block length and block, 2 length
+// bytes, a message of at least one byte, signature or MAC, appendix) is accepted - the smallest ones included
+//@   ensures accepts-every-built-layout [C02]: (len(data) >= 68 && len(data) <= 65535 && be16(data[49+int(data[48])], data[50+int(data[48])]) >= 1 && len(data) >= 49 + int(data[48]) + 2 + be16(data[49+int(data[48])], data[50+int(data[48])]) + authLen(data[4])) ==> result1 == nil
 //@   ensures err-nil-frame: result1 != nil ==> result0 == nil
 //@   ensures fresh-fields [C17]: result1 == nil ==> result0.recvLink == nil && !result0.src.IsValid() && !result0.dst.IsValid() && result0.builder == b
 //@   ensures replyable [C13]: result1 == nil ==> result0.dblReturnCheck == 0 && len(result0.pooledSlice) == len(pooledSlice) && cap(result0.pooledSlice) == cap(pooledSlice) && off(result0.pooledSlice) == off(pooledSlice) && base(result0.pooledSlice) == base(pooledSlice)
@@ -169,9 +172,10 @@ package frame
 //@   requires live(f)
 //@   modifies f.data, f.data[f.appendixIndex:cap(f.data)]
 //@   ensures fits [C09,C17]: (len(appendix) <= 10000 && len(appendix) <= cap(f.data) - f.appendixIndex) ==> result == nil
-//@   ensures set [C17]: result == nil ==> len(f.data) == f.appendixIndex + len(appendix) && (base(appendix) != base(f.data) ==> (forall i int :: 0 <= i && i < len(appendix) ==> f.data[f.appendixIndex+i] == appendix[i]))
+//@   ensures set [C02,C17]: result == nil ==> len(f.data) == f.appendixIndex + len(appendix) && (base(appendix) != base(f.data) ==> (forall i int :: 0 <= i && i < len(appendix) ==> f.data[f.appendixIndex+i] == appendix[i]))
 //@   ensures error-keeps [C17]: result != nil ==> len(f.data) == old(len(f.data))
 //@   ensures same-buffer: base(f.data) == old(base(f.data)) && off(f.data) == old(off(f.data)) && cap(f.data) == old(cap(f.data))
+//@   ensures sealed-part-kept [C02]: f.messageIndex == old(f.messageIndex) && f.authIndex == old(f.authIndex) && f.appendixIndex == old(f.appendixIndex)
 
 // ---- sealing -----------------------------------------------------------------------------------
 // The small helpers are inlined so that the exact byte ranges handed to the primitives are checked in
